@@ -1329,11 +1329,8 @@ Qed.
 
 Lemma trim_right_spaces_ok s : no_cr s -> no_cr (trim_right_spaces s).
 Proof.
-  induction s as [|c s IH]; intro H; cbn [trim_right_spaces]; [exact H|].
-  apply no_cr_inv in H as [Hc Hs]. specialize (IH Hs).
-  destruct (trim_right_spaces s) as [|x t].
-  - destruct (N.eqb c SPACE || N.eqb c CR); [apply no_cr_nil|apply no_cr_cons; [exact Hc|apply no_cr_nil]].
-  - apply no_cr_cons; assumption.
+  intros H Hin. destruct (trim_right_spaces_prefix s) as [t Ht].
+  apply H. rewrite Ht. apply in_or_app. left. exact Hin.
 Qed.
 
 Lemma Forall_snoc {A} (P : A -> Prop) l x : Forall P l -> P x -> Forall P (l ++ [x]).
